@@ -1,7 +1,7 @@
 (* C19 -- non-vacuity: concrete inputs meet the hypotheses of the theorems. *)
 From Coq Require Import QArith Qcanon ZArith List Arith Bool PrimFloat Lia.
 From Verif.lib Require Import Bsp NpCore NpQ NpF.
-From Verif.C19 Require Import Model Proofs Proofs2 Proofs4 Proofs5 FloatGridDefs FloatProofs.
+From Verif.C19 Require Import Model Proofs Proofs2 Proofs4 Proofs5 Proofs6 FloatGridDefs FloatProofs.
 Import ListNotations.
 Open Scope Qc_scope.
 
@@ -81,4 +81,12 @@ Proof. split; [lia|split; [vm_compute; lia|reflexivity]]. Qed.
 Definition ex_kv0 := make_knots 0 (q 0 1) (q 1 1) 4 1.
 Example ex_p0 : kv_valid ex_kv0 = true /\ numdofs ex_kv0 0 = 4%nat /\
                 map this (greville ex_kv0 0) = [1 # 8; 3 # 8; 5 # 8; 7 # 8]%Q.
+Proof. repeat split; vm_compute; reflexivity. Qed.
+
+(* N_pos_inside_support / greville_diag_pos on ex_kv: function 3 at its Greville point 3/8 *)
+Example ex_diag : this (nth 3 (greville ex_kv 2) 0) = (3 # 8)%Q /\ kn ex_kv 3 < q 3 8 /\ q 3 8 < kn ex_kv (3 + 2 + 1)
+                  /\ this (Nref ex_kv 2 3 (q 3 8)) = (1 # 2)%Q.
+Proof. repeat split; vm_compute; reflexivity. Qed.
+(* N_right_end: the last function (index 8) of ex_kv at u = 1 *)
+Example ex_right_end : kn ex_kv 8 < kn ex_kv 9 /\ qeqb (kn ex_kv 9) (kn ex_kv (length ex_kv - 1)) = true /\ this (Nref ex_kv 2 8 (q 1 1)) = 1%Q.
 Proof. repeat split; vm_compute; reflexivity. Qed.
